@@ -118,6 +118,26 @@ func runC09(e *Env) error {
 			}
 		}
 	}
+	// sequences written as literals that contain variables, at every nesting depth, in every loop form: evaluated at each
+	// execution of the loop (run with the re-render oracles forced: second render, other context, other engine settings)
+	forceOracles = true
+	for _, src := range []string{
+		"{% for r in [[x, 'a'], [x, 'b']] %}{{ r[0] }}{{ r[1] }};{% endfor %}",
+		"{% for o in [1, 2] %}{% for r in [[o, x], [x, o]] %}{{ r|join('-') }};{% endfor %}{% endfor %}",
+		"{% for r in [{'k': x}, {'k': n}] %}{{ r.k }};{% endfor %}{% for r in [x, n, [x]] %}{{ r is iterable ? r|first : r }};{% endfor %}",
+		"{% for k, v in {'a': x, 'b': [n, x]} %}{{ k }}={{ v is iterable ? v|join(',') : v }};{% endfor %}",
+		"{% for i in [1, 2, 3]|slice(0, n) %}{{ i }}{% endfor %}|{% for i in range(1, n) %}{{ i }}{% endfor %}|{% for i in [n, n + 1] %}{{ i }}{% endfor %}",
+		"{% set q = [[x]] %}{% for r in q %}{{ r[0] }}{% endfor %}{% for r in [[1, 2], [3, 4]] %}{{ r[0] + n }};{% endfor %}",
+		"{% if [x]|first == 's' %}S{% else %}T{% endif %}{{ {'k': [x, n]}['k']|join('/') }}{{ [[n]]|first|first }}",
+	} {
+		c := &Case{Templates: map[string]string{"main": src}, Main: "main", Ctx: map[string]any{"x": "s", "n": 2}, FailAt: -1}
+		if _, _, _, err := compareCase(e, c, "render-model-c09", "correspondence render on loops over literal sequences holding variables"); err != nil {
+			forceOracles = false
+			return err
+		}
+		r.Seen("literal-seq:"+src, true)
+	}
+	forceOracles = false
 	// differential
 	n := e.N(1500, 60000)
 	for i := 0; i < n && !r.Full(); i++ {
